@@ -251,9 +251,11 @@ func (d *Device) handleABSEvent(ie *input.InputEvent) {
 
 		switch {
 		case value <= -0.5:
-			_, ok := d.analogNoteTracker[identifierNeg]
-			if !ok {
-				d.AnalogNoteOn(identifierNeg, analog.NoteNeg, analog.ChannelOffsetNeg, ie)
+			if analog.Bidirectional { // no note_negative configured: this direction stays silent
+				_, ok := d.analogNoteTracker[identifierNeg]
+				if !ok {
+					d.AnalogNoteOn(identifierNeg, analog.NoteNeg, analog.ChannelOffsetNeg, ie)
+				}
 			}
 			d.AnalogNoteOff(identifier, ie)
 		case value > -0.49 && value < 0.49:
